@@ -37,6 +37,7 @@ class Explorer:
         self.decisions = []
         self.pos = 0
         self.pc = []
+        self.known = {}
         self.model = None
         self.nq = 0
         self.tq = 0.0
@@ -52,13 +53,18 @@ class Explorer:
         self.decisions = list(prefix)
         self.pos = 0
         self.pc = []
+        self.known = {}
         self.model = None
         self.solver.reset()
         self.solver.set('timeout', SOLVER_TIMEOUT_MS)
 
     def add(self, c):
         self.solver.add(c)
-        self.pc.append(c)
+        self.pc.append(c)          # keeps the AST alive, so ids in self.known stay unique
+        if z3.is_not(c):
+            self.known[c.arg(0).get_id()] = False
+        else:
+            self.known[c.get_id()] = True
         if self.model is not None:
             try:
                 if not z3.is_true(self.model.eval(c, model_completion=True)):
@@ -138,6 +144,14 @@ class Explorer:
             return True
         if z3.is_false(cond):
             return False
+        # syntactically already decided on this path (same simplified term, or its negation)
+        k = self.known.get(cond.get_id())
+        if k is None and z3.is_not(cond):
+            k = self.known.get(cond.arg(0).get_id())
+            if k is not None:
+                k = not k
+        if k is not None:
+            return k
         if self.pos < len(self.decisions):
             d = self.decisions[self.pos]
             if d[0] != 'b':
@@ -989,6 +1003,110 @@ def mkstr(items):
     return SymStr(items)
 
 
+
+class SymText:
+    """text produced by %-formatting with symbolic numbers: literal pieces and (spec, value) slots.
+    Equality with another SymText is structural (same literals, same specs, values equal -> SymBool)."""
+    __slots__ = ('parts',)
+
+    def __init__(self, parts):
+        out = []
+        for p in parts:
+            if isinstance(p, str) and out and isinstance(out[-1], str):
+                out[-1] += p
+            elif p != '':
+                out.append(p)
+        self.parts = out
+
+    def __copy__(self): return self
+    def __deepcopy__(self, memo): return self
+
+    def _cmp_eq(self, o):
+        if isinstance(o, str):
+            o = SymText([o])
+        if type(o) is not SymText:
+            return NotImplemented
+        if len(self.parts) != len(o.parts):
+            return False
+        conds = []
+        for a, b in zip(self.parts, o.parts):
+            if isinstance(a, str) or isinstance(b, str):
+                if a != b:
+                    return False
+            else:
+                if a[0] != b[0]:
+                    return False
+                conds.append(a[1] == b[1])
+        return land(*conds)
+
+    def __eq__(self, o):
+        r = self._cmp_eq(o)
+        return False if r is NotImplemented else r
+
+    def __ne__(self, o):
+        r = self._cmp_eq(o)
+        return True if r is NotImplemented else lnot(r)
+
+    def __add__(self, o):
+        if isinstance(o, str):
+            return SymText(self.parts + [o])
+        if type(o) is SymText:
+            return SymText(self.parts + o.parts)
+        return NotImplemented
+
+    def __radd__(self, o):
+        if isinstance(o, str):
+            return SymText([o] + self.parts)
+        return NotImplemented
+
+    def render(self, f):
+        return ''.join(p if isinstance(p, str) else (p[0] % f(p[1])) for p in self.parts)
+
+    def __str__(self): return ''.join(p if isinstance(p, str) else '<sym>' for p in self.parts)
+    __repr__ = __str__
+    def __format__(self, spec): return str(self)
+    def __hash__(self): return hash(str(self))
+    def __len__(self): return len(str(self))
+
+
+_FMT_RE = None
+
+
+def sym_format(a, args):
+    """a % args with symbolic ints among args -> SymText (or None if the format is not understood)"""
+    global _FMT_RE
+    import re
+    if _FMT_RE is None:
+        _FMT_RE = re.compile(r'%(?:[#0\- +]*)(?:\d+)?(?:\.\d+)?[diouxXcrsa%]')
+    parts = []
+    pos = 0
+    ai = 0
+    for m in _FMT_RE.finditer(a):
+        parts.append(a[pos:m.start()])
+        pos = m.end()
+        spec = m.group(0)
+        if spec == '%%':
+            parts.append('%')
+            continue
+        if ai >= len(args):
+            return None
+        v = args[ai]
+        ai += 1
+        if type(v) is SymInt and spec[-1] in 'diouxX':
+            parts.append((spec.replace('u', 'd') if spec[-1] == 'u' else spec, v))
+        elif type(v) is SymText:
+            if spec != '%s':
+                return None
+            parts += v.parts
+        elif is_sym(v):
+            parts.append('<sym>')
+        else:
+            parts.append(spec % (v,))
+    parts.append(a[pos:])
+    if ai != len(args):
+        return None
+    return SymText(parts)
+
 # ----------------------------------------------------------------------------
 # choice among concrete objects
 # ----------------------------------------------------------------------------
@@ -1352,11 +1470,19 @@ def sx_mod(a, b):
             return '<sym>' if is_sym(v) else v
         if isinstance(b, tuple):
             if any(is_sym(v) for v in b):
+                if isinstance(a, str):
+                    r = sym_format(a, b)
+                    if r is not None:
+                        return r
                 return _loose_fmt(a) % tuple(ren(v) for v in b)
         elif isinstance(b, dict):
             if any(is_sym(v) for v in b.values()):
                 return _loose_fmt(a) % {k: ren(v) for k, v in b.items()}
         elif is_sym(b):
+            if isinstance(a, str):
+                r = sym_format(a, (b,))
+                if r is not None:
+                    return r
             return _loose_fmt(a) % ('<sym>',)
     return a % b
 
@@ -1391,6 +1517,13 @@ def sx_callm(o, name, *args, **kw):
                     out.extend(p.items if type(p) in (SymBytes, SymStr) else (list(p) if isinstance(p, bytes) else [ord(c) for c in p]))
                 return mkbytes(out) if isinstance(o, bytes) else mkstr(out)
             raise EngineLimit('join with separator on symbolic parts')
+        if any(type(p) is SymText for p in parts) and isinstance(o, str):
+            out = []
+            for i, p in enumerate(parts):
+                if i:
+                    out.append(o)
+                out += p.parts if type(p) is SymText else [str(p) if not is_sym(p) else '<sym>']
+            return SymText(out)
         if any(is_sym(p) for p in parts):
             parts = [('<sym>' if is_sym(p) else p) for p in parts]
         return o.join(parts)
@@ -1534,7 +1667,7 @@ def sx_chr(x):
 def sx_str(*a, **kw):
     if a and type(a[0]) is SymBytes and len(a) > 1:
         return a[0].decode(*a[1:], **kw)
-    if a and type(a[0]) is SymStr:
+    if a and type(a[0]) in (SymStr, SymText):
         return a[0]
     return str(*a, **kw)
 
@@ -1703,6 +1836,8 @@ def eval_under(model, x):
         return eval_under(model, x.objs[model.eval(x.e, model_completion=True).as_long()])
     if t is SymRatio:
         return eval_under(model, x.num) / x.den
+    if t is SymText:
+        return x.render(lambda v: eval_under(model, v))
     if t in (list, tuple):
         return t(eval_under(model, v) for v in x)
     if t is dict:
@@ -1710,4 +1845,4 @@ def eval_under(model, x):
     return x
 
 
-_SYMTYPES = (SymInt, SymBool, SymBytes, SymStr, SymChoice, SymRatio)
+_SYMTYPES = (SymInt, SymBool, SymBytes, SymStr, SymChoice, SymRatio, SymText)
